@@ -214,3 +214,133 @@ Proof.
     + rewrite run_dead in Er by assumption. inversion Er; subst. rewrite app_nil_r.
       split; [assumption|]. split; [assumption|]. intros Hr2. congruence.
 Qed.
+
+(** ** After Cancel (or any other end of the loop) nothing is sent *)
+
+Theorem cancel_stops cf st evs1 evs2 :
+  fst (run cf st (evs1 ++ EvCancel :: evs2)) = fst (run cf st evs1) /\
+  ph (snd (run cf st (evs1 ++ EvCancel :: evs2))) <> PRunning.
+Proof.
+  rewrite run_app. destruct (run cf st evs1) as [g1 s1]. cbn [run fst snd].
+  unfold step. destruct (ph s1) eqn:E.
+  - rewrite run_dead by (cbn; discriminate). cbn [fst snd]. rewrite app_nil_r. split; [reflexivity|cbn; discriminate].
+  - rewrite run_dead by congruence. cbn [fst snd]. rewrite app_nil_r. split; [reflexivity|congruence].
+  - rewrite run_dead by congruence. cbn [fst snd]. rewrite app_nil_r. split; [reflexivity|congruence].
+  - rewrite run_dead by congruence. cbn [fst snd]. rewrite app_nil_r. split; [reflexivity|congruence].
+Qed.
+
+(** ** Step mode: every trigger taken by a running loop makes exactly one group *)
+
+Definition is_fire (ev : event) : Prop := match ev with EvCancel => False | _ => True end.
+
+Lemma fire_test_one cf fi st :
+  sc_test cf = true -> tabs_ok cf ->
+  exists g st', fire cf fi st = ([g], st') /\ group_wf cf (nextNr st) g /\
+                Forall (fun m => mp_now m = availT st /\ mp_last m = (nextNr st =? lastToSend st)) g.
+Proof.
+  intros Ht Htab. unfold fire.
+  destruct (sendMedia_ok cf (nextNr st) (availT st) (nextNr st =? lastToSend st) Htab) as [g Hg].
+  rewrite Hg. destruct (sendMedia_wf _ _ _ _ _ Hg) as [Hw Hl]. rewrite Ht.
+  destruct (ph (afterSend cf (fi_refuse fi) g st)); eauto.
+Qed.
+
+Theorem step_mode_one_group cf st ev :
+  sc_test cf = true -> tabs_ok cf -> ph st = PRunning -> is_fire ev ->
+  exists g st', step cf st ev = ([g], st') /\ group_wf cf (nextNr st) g /\
+                Forall (fun m => mp_now m = availT st /\ mp_last m = (nextNr st =? lastToSend st)) g.
+Proof.
+  intros Ht Htab Hr Hf. unfold step. rewrite Hr.
+  destruct ev as [fi|fi|]; [apply fire_test_one; assumption..|destruct Hf].
+Qed.
+
+(** ** Duration *)
+
+Fixpoint numbered_last (cf : scfg) (last n : Z) (gs : list (list mput)) : Prop :=
+  match gs with
+  | [] => True
+  | g :: gs' => group_wf cf n g /\ Forall (fun m => mp_last m = (n =? last)) g /\ numbered_last cf last (n + 1) gs'
+  end.
+
+(** calcSegmentAvailabilityTime returns a value for every number (no index panic: excludes finding
+    c16-start-number-above-live-edge-panics). *)
+Definition avail_total (cf : scfg) : Prop := forall n, exists a, sc_avail cf n = Ok a.
+
+Lemma fire_test_running cf fi st :
+  sc_test cf = true -> sc_chunked cf = false -> tabs_ok cf -> avail_total cf -> ph st = PRunning ->
+  exists g a, fire cf fi st =
+              ([g], loopTop {| ph := PRunning; nextNr := nextNr st + 1; lastToSend := lastToSend st; availT := a |}) /\
+              sc_avail cf (u32 (nextNr st + 1)) = Ok a /\
+              group_wf cf (nextNr st) g /\
+              Forall (fun m => mp_now m = availT st /\ mp_last m = (nextNr st =? lastToSend st)) g.
+Proof.
+  intros Ht Hc Htab Hav Hr. unfold fire.
+  destruct (sendMedia_ok cf (nextNr st) (availT st) (nextNr st =? lastToSend st) Htab) as [g Hg].
+  rewrite Hg. destruct (sendMedia_wf _ _ _ _ _ Hg) as [Hw Hl].
+  unfold afterSend. rewrite Hc. cbn [negb]. rewrite Hr, Ht.
+  unfold advance. destruct (Hav (u32 (nextNr st + 1))) as [a Ha]. rewrite Ha, Hr. eauto 8.
+Qed.
+
+Lemma duration_run cf :
+  sc_test cf = true -> sc_chunked cf = false -> tabs_ok cf -> avail_total cf ->
+  forall evs st gs st',
+    Forall is_fire evs -> ph st = PRunning -> 0 <= nextNr st <= lastToSend st ->
+    lastToSend st - nextNr st < lenZ evs ->
+    run cf st evs = (gs, st') ->
+    lenZ gs = lastToSend st - nextNr st + 1 /\ numbered_last cf (lastToSend st) (nextNr st) gs /\
+    ph st' = PStopped /\ nextNr st' = lastToSend st + 1.
+Proof.
+  intros Ht Hc Htab Hav. induction evs as [|ev evs IH]; intros st gs st' Hf Hr Hn Hl H.
+  - rewrite lenZ_nil in Hl. lia.
+  - inversion Hf as [|? ? Hev Hrest]; subst. cbn [run] in H. unfold step in H. rewrite Hr in H.
+    assert (Hfire : exists fi, (let '(g, st1) := fire cf fi st in let '(gs0, st2) := run cf st1 evs in (g ++ gs0, st2)) = (gs, st')).
+    { destruct ev as [fi|fi|]; [exists fi; exact H|exists fi; exact H|destruct Hev]. }
+    clear H. destruct Hfire as [fi H].
+    destruct (fire_test_running cf fi st Ht Hc Htab Hav Hr) as (g & a & Hfi & Ha & Hw & Hlast). rewrite Hfi in H.
+    set (st1 := {| ph := PRunning; nextNr := nextNr st + 1; lastToSend := lastToSend st; availT := a |}) in *.
+    rewrite lenZ_cons in Hl.
+    destruct (Z.eq_dec (nextNr st) (lastToSend st)) as [Heq|Hne].
+    + assert (Hlt : loopTop st1 = stopped st1).
+      { unfold loopTop. cbn [ph st1 lastToSend nextNr].
+        destruct ((0 <=? lastToSend st) && (lastToSend st <? nextNr st + 1)) eqn:Eb; [reflexivity|lia]. }
+      rewrite Hlt in H. rewrite run_dead in H by (cbn; discriminate). inversion H; subst.
+      cbn [app numbered_last]. rewrite lenZ_cons, lenZ_nil. cbn [ph stopped st1 nextNr lastToSend].
+      split; [lia|]. split; [|split; [reflexivity|lia]].
+      split; [exact Hw|]. split; [|exact I]. eapply Forall_impl; [|exact Hlast]. cbn. tauto.
+    + assert (Hlt : loopTop st1 = st1).
+      { unfold loopTop. cbn [ph st1 lastToSend nextNr].
+        destruct ((0 <=? lastToSend st) && (lastToSend st <? nextNr st + 1)) eqn:Eb; [lia|reflexivity]. }
+      rewrite Hlt in H. destruct (run cf st1 evs) as [gs0 st2] eqn:Er. inversion H; subst.
+      apply IH in Er; [|assumption|reflexivity|cbn [st1 nextNr lastToSend]; lia|cbn [st1 nextNr lastToSend]; lia].
+      cbn [st1 nextNr lastToSend] in Er. destruct Er as (L1 & N1 & P1 & X1).
+      cbn [app numbered_last]. rewrite lenZ_cons. split; [lia|]. split; [|split; assumption].
+      split; [exact Hw|]. split; [|exact N1]. eapply Forall_impl; [|exact Hlast]. cbn. tauto.
+Qed.
+
+(** The whole session with a duration. *)
+Theorem duration_session cf now initres evs d inits gs st :
+  sc_dur cf = Some d -> 0 <= d -> 0 < sc_segDurMS cf ->
+  sc_test cf = true -> sc_chunked cf = false -> tabs_ok cf -> avail_total cf ->
+  forallb (fun i => nth i initres true) (seq 0 (length (sc_reps cf))) = true ->
+  let k := d * 1000 / sc_segDurMS cf in
+  let first := findLastSegNr cf now + 1 in
+  0 <= first ->
+  Forall is_fire evs -> k < lenZ evs ->
+  session cf now initres evs = (inits, gs, st) ->
+  inits = repIdxs cf /\ lenZ gs = k + 1 /\ numbered_last cf (first + k) first gs /\ ph st = PStopped.
+Proof.
+  intros Hd Hd0 Hseg Ht Hc Htab Hav Hinit k first Hfirst Hf Hk H.
+  unfold session, start in H. rewrite Hinit in H. cbn [negb] in H.
+  unfold nrSegsToSend in H. rewrite Hd in H. unfold go_div in H.
+  destruct (sc_segDurMS cf =? 0) eqn:E0; [lia|]. cbn [bind] in H.
+  rewrite Z.quot_div_nonneg in H by lia. fold k in H. fold first in H.
+  destruct (Hav (u32 first)) as [a Ha]. rewrite Ha in H.
+  assert (Hk0 : 0 <= k) by (unfold k; apply Z.div_pos; lia).
+  set (st0 := {| ph := PRunning; nextNr := first; lastToSend := first + k; availT := a |}) in *.
+  assert (Hlt : loopTop st0 = st0).
+  { unfold loopTop. cbn [ph st0 lastToSend nextNr].
+    destruct ((0 <=? first + k) && (first + k <? first)) eqn:Eb; [lia|reflexivity]. }
+  rewrite Hlt in H. destruct (run cf st0 evs) as [gs0 st1] eqn:Er. inversion H; subst.
+  apply (duration_run cf Ht Hc Htab Hav) in Er; [|assumption|reflexivity|cbn [st0 nextNr lastToSend]; lia|cbn [st0 nextNr lastToSend]; lia].
+  cbn [st0 nextNr lastToSend] in Er. destruct Er as (L1 & N1 & P1 & _).
+  split; [reflexivity|]. split; [lia|]. split; assumption.
+Qed.
